@@ -24,9 +24,9 @@ def BOUNDS(tier):
     w = "1 (2 on the framing-critical skeletons %s)" % (CRITICAL,) if tier == "quick" else "2 (3 on the framing-critical skeletons %s)" % (CRITICAL,)
     return ("F1: every skeleton of harness/streams.K (%d messages / pipelines), a window of w=%s fully symbolic bytes substituted at and "
             "inserted at every byte position, all 256^w values; F2: all byte strings of length <= %d as chunked body / inside a chunk / "
-            "at the chunk terminator / in the trailer / as header block / as request line; F3: Content-Length values and chunk-size "
+            "at the chunk terminator / in the trailer / as header block / as request line%s; F3: Content-Length values and chunk-size "
             "lines of <= %d fully symbolic bytes.  Outside: longer symbolic spans, >3 pipelined messages, bodies > 16 bytes." % (
-                len(streams.K), w, 5 if tier == "quick" else 7, 3 if tier == "quick" else 4))
+                len(streams.K), w, 5 if tier == "quick" else 7, " (request line: <= 4)" if tier == "quick" else " (request line: <= 5)", 3 if tier == "quick" else 4))
 
 
 CRITICAL = ("cl_pipe", "chunk_ext_tr", "cl_te", "te10_ka", "te_padded", "chunk_bigsize", "close_pipe")
@@ -36,10 +36,10 @@ def jobs(tier):
     allk = list(streams.K)
     if tier == "quick":
         js = streams.f1_jobs(allk, 1) + streams.f1_jobs(CRITICAL, 2, per_job=6)
-        js += streams.f2_jobs(5) + streams.f3_jobs(3)
+        js += [j for j in streams.f2_jobs(5) if j["name"] != "F2:reqline:n5"] + streams.f3_jobs(3)  # reqline n5: 4500 paths / 2.5 min, thorough tier
     else:
         js = streams.f1_jobs(allk, 1) + streams.f1_jobs(allk, 2, per_job=6) + streams.f1_jobs(CRITICAL, 3, per_job=2)
-        js += streams.f2_jobs(7) + streams.f3_jobs(4)
+        js += [j for j in streams.f2_jobs(7) if not (j["phase"] == "reqline" and j["n"] > 5)] + streams.f3_jobs(4)
     # SEG: the same comparison with the stream delivered in two reads (every cut) and byte-at-a-time: the
     # RFC reading of a stream does not depend on segmentation (the relational form of this is C02)
     for nm in allk:
